@@ -14,7 +14,17 @@ use yash_syntax::syntax::List;
 /// Parses a whole program the way the shell's read-eval loop does (command
 /// line by command line). Ok(lists) or Err(message).
 fn parse_program(src: &str) -> Result<Vec<List>, String> {
+    parse_program_in(src, false)
+}
+
+/// `portable`: with the `portable` shell option on (the parser then accepts POSIX syntax only).
+fn parse_program_in(src: &str, portable: bool) -> Result<Vec<List>, String> {
     let mut lexer = Lexer::with_code(src);
+    if portable {
+        let mut mode = yash_env::parser::Mode::default();
+        mode.portable = true;
+        lexer.set_mode(mode);
+    }
     let mut parser = Parser::new(&mut lexer);
     let mut out = vec![];
     let mut guard = 0;
@@ -154,7 +164,93 @@ const ALIAS_TABLES: &[&[(&str, &str, bool)]] = &[
 ];
 const ALIAS_TOKENS: &[&str] = &["a", "b", "c", "x", "!", ";", "|", "&&", "(", ")", "{", "}", "if", "then", "fi", "<f", ">c", "for", "in", "do", "done", "case", "esac", "\n", "a=1", "'a'"];
 
+/// (opener, innermost text, closer) of the towers of nested constructs.
+const TOWERS: &[(&str, &str, &str, &str)] = &[
+    ("subshell", "(", ":", ")"),
+    ("group", "{ ", ":", ";}"),
+    ("command-substitution", "x=$(", ":", ")"),
+    ("double-quoted-substitution", "\"$(", ":", ")\""),
+    ("parameter-switch", "${x:-", "a", "}"),
+    ("if", "if ", ":", "; then :; fi"),
+    ("arithmetic", "$((1+", "1", "))"),
+    // `$((` that turns out to be `$( (`: the arithmetic attempt fails at the very end
+    ("arithmetic-or-subshell", "$((", ":", ") )"),
+    ("backquote-in-dquote", "\"`", ":", "`\""),
+];
+
+fn tower(kind: &str, depth: usize) -> Option<String> {
+    let (_, open, mid, close) = TOWERS.iter().find(|t| t.0 == kind)?;
+    let prefix = if open.starts_with('$') || open.starts_with('"') { ": " } else { "" };
+    Some(format!("{prefix}{}{mid}{}\n", open.repeat(depth), close.repeat(depth)))
+}
+
+pub fn parse_probe(kind: &str, depth: usize) -> i32 {
+    let Some(src) = tower(kind, depth) else { return 3 };
+    match parse_program(&src) {
+        Ok(_) => println!("ok"),
+        Err(e) => println!("err {}", e.chars().take(80).collect::<String>()),
+    }
+    0
+}
+
+/// Runs `yv parse-probe kind depth` with a wall-clock limit. Ok(()) = returned, Err(what) otherwise.
+fn probe_subprocess(kind: &str, depth: usize, limit_s: u64) -> Result<(), String> {
+    use std::os::unix::process::ExitStatusExt;
+    let exe = std::env::current_exe().map_err(|e| e.to_string())?;
+    let mut child = std::process::Command::new(exe)
+        .args(["parse-probe", kind, &depth.to_string()])
+        .stdout(std::process::Stdio::null())
+        .stderr(std::process::Stdio::null())
+        .spawn()
+        .map_err(|e| e.to_string())?;
+    let deadline = std::time::Instant::now() + std::time::Duration::from_secs(limit_s);
+    loop {
+        match child.try_wait() {
+            Ok(Some(st)) => {
+                return match (st.code(), st.signal()) {
+                    (Some(0), _) => Ok(()),
+                    (Some(c), _) => Err(format!("MACHINERY exit code {c}")),
+                    (None, Some(sig)) => Err(format!("killed by signal {sig} (stack overflow)")),
+                    _ => Err("unknown".into()),
+                };
+            }
+            Ok(None) if std::time::Instant::now() > deadline => {
+                let _ = child.kill();
+                let _ = child.wait();
+                return Err(format!("did not finish within {limit_s} s"));
+            }
+            Ok(None) => std::thread::sleep(std::time::Duration::from_millis(5)),
+            Err(e) => return Err(e.to_string()),
+        }
+    }
+}
+
+/// The same round trip with the `portable` option on: what the parser accepts in that mode must
+/// be printed in a form it accepts in that mode.
+fn check_portable(ctx: &Ctx, src: &str, counters: &Counters) {
+    let Ok(Ok(parsed)) = catch(|| parse_program_in(src, true)) else { return };
+    let s1 = structure(&parsed);
+    let trailing = src.chars().rev().take_while(|c| *c == '\\').count();
+    if has_here_doc(&s1) || trailing % 2 == 1 {
+        return;
+    }
+    counters.roundtrips.fetch_add(1, Relaxed);
+    let printed: String = parsed.iter().map(|l| l.to_string()).collect::<Vec<_>>().join("\n");
+    let again = catch(|| parse_program_in(&printed, true));
+    // (empty command lines vanish when printed: compare the non-empty lists)
+    let nonempty = |l: &[List]| structure(&l.iter().filter(|x| !x.0.is_empty()).cloned().collect::<Vec<_>>());
+    let ok = matches!(&again, Ok(Ok(l)) if nonempty(l) == nonempty(&parsed));
+    if !ok {
+        ctx.violation(
+            "c06:roundtrip-portable-mode",
+            &format!("with `portable` on, {src:?} parses and prints as {printed:?}, which then gives {:?}", again.map(|r| r.map(|l| l.iter().map(|x| x.to_string()).collect::<Vec<_>>()))),
+            json!({"input": src, "printed": printed, "portable": true}),
+        );
+    }
+}
+
 fn check_input(ctx: &Ctx, src: &str, counters: &Counters) {
+    check_portable(ctx, src, counters);
     counters.inputs.fetch_add(1, Relaxed);
     let _guard = case_guard(json!({"input": src}).to_string());
     let parsed = match catch(|| parse_program(src)) {
@@ -310,6 +406,10 @@ fn join(tokens: &[String]) -> String {
 }
 
 pub fn replay(case: &serde_json::Value) -> i32 {
+    if let (Some(kind), Some(depth)) = (case["tower"].as_str(), case["depth"].as_u64()) {
+        println!("tower {kind} depth {depth}: {:?} (input starts {:?})", probe_subprocess(kind, depth as usize, 30), tower(kind, depth as usize).map(|s| s.chars().take(40).collect::<String>()));
+        return 1;
+    }
     let src = case["input"].as_str().unwrap();
     if let Some(al) = case["aliases"].as_array() {
         println!("input {src:?} parsed with the alias table {al:?}: run `./check C06` — the table is one of ALIAS_TABLES; a hang is reported by the 30 s watchdog");
@@ -442,15 +542,45 @@ pub fn run(tier: Tier) -> i32 {
         }
     });
     let alias_inputs = counters.inputs.load(Relaxed) - before_e;
+    // (f) towers of nested constructs: every depth 1..=12 of every construct in-process (round
+    // trip included); depth 30 and depth 100000 in a subprocess under a wall-clock limit — a parser
+    // whose work is exponential in the depth does not finish the former, a recursion without a
+    // depth limit overflows the stack on the latter
+    let mut tower_probes = 0u64;
+    for (kind, ..) in TOWERS {
+        for depth in 1..=12 {
+            check_input(&ctx, &tower(kind, depth).unwrap(), &counters);
+        }
+        for (depth, limit) in [(30usize, 10u64), (100_000, 20)] {
+            tower_probes += 1;
+            match probe_subprocess(kind, depth, limit) {
+                Ok(()) => {}
+                Err(e) if e.starts_with("MACHINERY") => {
+                    println!("{e}");
+                    std::process::exit(2);
+                }
+                Err(e) => {
+                    let class = if e.contains("signal") { "stack-overflow" } else { "no-termination" };
+                    ctx.violation(
+                        &format!("c06:{class}:{kind}"),
+                        &format!("{depth} nested `{kind}` constructs: the parser {e}"),
+                        json!({"tower": kind, "depth": depth}),
+                    );
+                }
+            }
+        }
+    }
     let cov = json!({
         "character_class_inputs": class_inputs,
         "inputs_parsed_with_alias_tables": alias_inputs,
+        "tower_probes_in_subprocesses": tower_probes,
+        "tower_kinds": TOWERS.len(),
         "alias_tables": ALIAS_TABLES.len(),
         "character_class_contexts": CONTEXTS.len(),
         "character_classes": classes.len(),
         "evaluations": counters.inputs.load(Relaxed) + counters.roundtrips.load(Relaxed),
         "distinct_nontrivial": counters.roundtrips.load(Relaxed),
-        "rule": format!("(a) every sequence of <= {tmax} tokens over {} tokens (words with every expansion kind, assignments, all reserved words, all operators, redirections with and without fd, here-document operators with a body, unclosed quotes / $( / ${{ / ` / $(( / $', comment, function headers); (b) every script of the scripted-test corpus ({} scripts) plus every single-token deletion, adjacent swap and truncation (and every character truncation of short ones); (c) every string of length <= {} over 25 raw characters incl. multi-byte; (d) lexer contexts with one hole x all 128 ASCII characters and Unicode class representatives, and with two adjacent holes; (e) every sequence of <= 3/4 tokens over 26 tokens parsed with each of 8 alias tables (self-recursive, mutually recursive, blank-ending chains, global aliases incl. self-referencing and cyclic ones, aliases producing reserved words and operators): the parser must terminate without panic. Every input must make the parser return Ok or Err without panic/hang; for every Ok tree without here-documents the printed text must parse to a structurally equal tree (Debug rendering with all Locations erased). Non-trivial = inputs that parsed and were round-tripped.", TOKENS.len(), scripts.len(), tier.pick(3, 4)),
+        "rule": format!("(a) every sequence of <= {tmax} tokens over {} tokens (words with every expansion kind, assignments, all reserved words, all operators, redirections with and without fd, here-document operators with a body, unclosed quotes / $( / ${{ / ` / $(( / $', comment, function headers); (b) every script of the scripted-test corpus ({} scripts) plus every single-token deletion, adjacent swap and truncation (and every character truncation of short ones); (c) every string of length <= {} over 25 raw characters incl. multi-byte; (d) lexer contexts with one hole x all 128 ASCII characters and Unicode class representatives, and with two adjacent holes; (e) every sequence of <= 3/4 tokens over 26 tokens parsed with each of 8 alias tables (self-recursive, mutually recursive, blank-ending chains, global aliases incl. self-referencing and cyclic ones, aliases producing reserved words and operators): the parser must terminate without panic; (f) towers of 9 nested constructs at every depth 1..12 in-process and at depths 30 and 100000 in a subprocess with a wall-clock limit. Every input must make the parser return Ok or Err without panic/hang; for every Ok tree without here-documents the printed text must parse to a structurally equal tree (Debug rendering with all Locations erased), in the default parsing mode and with the `portable` option on. Non-trivial = inputs that parsed and were round-tripped.", TOKENS.len(), scripts.len(), tier.pick(3, 4)),
         "samples": samples.take(),
         "token_sequence_inputs": token_inputs,
         "corpus_scripts": scripts.len(),
